@@ -1613,7 +1613,11 @@ fn rep_text(r: &RepSpec) -> Option<(String, Pos)> {
     Some((text, p))
 }
 fn rep_spec_strategy() -> impl Strategy<Value = RepSpec> {
-    (prop_oneof![3 => gamelike_walk_strategy(40), 2 => endgame_walk_strategy(20)], prop_oneof![2 => Just(0u8), 2 => 1u8..4], 0u8..4).prop_map(|(walk, cycles, form)| RepSpec { walk, cycles, form })
+    // near-mate placements and heavy nets: tiny trees with short forced mates - a timed search there
+    // runs through all its iterations and ends of its own accord, long before the clock (a path of its
+    // own through the engine: the search thread exits normally, the I/O thread keeps waiting)
+    let tiny = (prop_oneof![2 => placement_near_mate(), 1 => placement_heavy_net()].prop_map(Start::Placement), proptest::collection::vec(any::<u16>(), 0..3)).prop_map(|(start, choices)| WalkRecipe { start, choices });
+    (prop_oneof![3 => gamelike_walk_strategy(40), 2 => endgame_walk_strategy(20), 2 => tiny], prop_oneof![2 => Just(0u8), 2 => 1u8..4], 0u8..4).prop_map(|(walk, cycles, form)| RepSpec { walk, cycles, form })
 }
 const IGNORABLE: [&str; 8] = ["", "   ", "stop", "ponderhit", "debug on", "uci", "hello world", "register later"];
 const OPTIONS: [&str; 8] = ["setoption name DebugLogLevel value None", "setoption name DebugLogLevel value Info", "setoption name Hash value 16", "setoption name Clear Hash", "setoption", "setoption name Ponder value true", "setoption name UCI_AnalyseMode", "setoption name DebugLogLevel"];
@@ -1975,6 +1979,46 @@ fn many_once(c: &ManySearches, st: &mut Stats) -> CaseResult {
     if c.timed_fillers {
         e.send(fillers[1]);
         do_go(&mut e, "go wtime 700 btime 700", 16)?;
+        // ... and a timed search that ends of its own accord (short forced mate: all iterations
+        // finish within a few milliseconds), directly followed by the TIMED probe - whatever a search
+        // that ran to its natural end leaves behind meets the next timed search first
+        let tiny = ["position fen 6k1/8/5K2/8/8/8/8/1Q6 w - - 0 1", "position fen 7k/8/5K2/8/8/8/8/6R1 w - - 0 1", "position fen k7/8/1K6/8/8/8/8/7Q w - - 0 1", "position fen 8/8/8/8/8/2k5/8/K1q5 b - - 0 1"][(c.count as usize) % 4];
+        e.send(tiny);
+        do_go(&mut e, "go wtime 2600 btime 2600", 67)?;
+        e.settle(20);
+        let white = p.stm == Color::White;
+        e.send(&ptext);
+        let clock = 100 + (slice as u64) * 30 * 10 / 8 + 1;
+        let go = if white { format!("go wtime {} btime 3000", clock) } else { format!("go btime {} wtime 3000", clock) };
+        let b = do_go(&mut e, &go, plan_ms(&go, white))?;
+        let timed_first = info_sig(&b.infos);
+        if let Some(i) = common_prefix_equal(&timed_first, &fresh.timed) {
+            return Err(format!("timed probe right after a search that ran to its natural end (`{}`): improvement #{} is {:?} but a fresh engine reports {:?} [{}]", tiny, i, timed_first[i], fresh.timed[i], ptext));
+        }
+        st.label("timed_probe_right_after_a_search_that_ended_by_itself");
+        // the same with a probe RELATED to the finished search (same material, one man shifted or a
+        // pawn added): moves remembered from the finished search are legal here
+        let related = [
+            ("position fen 6k1/8/5K2/8/8/8/8/1Q6 w - - 0 1", "position fen 6k1/8/4K3/8/8/8/3P4/1Q6 w - - 0 1"),
+            ("position fen 7k/8/5K2/8/8/8/8/6R1 w - - 0 1", "position fen 7k/8/4K3/8/8/8/1P6/6R1 w - - 0 1"),
+            ("position fen k7/8/1K6/8/8/8/8/7Q w - - 0 1", "position fen k7/8/2K5/8/8/8/5P2/7Q w - - 0 1"),
+            ("position fen 8/8/8/8/8/2k5/8/K1q5 b - - 0 1", "position fen 8/8/8/8/8/3k4/6p1/K1q5 b - - 0 1"),
+        ][(c.count as usize) % 4];
+        let rp = position_from_text(related.1)?;
+        let rgo = if rp.stm == Color::White { "go wtime 9100 btime 9100" } else { "go btime 9100 wtime 9100" };
+        let mut f2 = Engine::spawn()?;
+        f2.handshake()?;
+        f2.send(related.1);
+        let fr = info_sig(&do_go(&mut f2, rgo, 240)?.infos);
+        f2.send("quit");
+        e.send(related.0);
+        do_go(&mut e, "go wtime 2600 btime 2600", 67)?;
+        e.settle(20);
+        e.send(related.1);
+        let sr = info_sig(&do_go(&mut e, rgo, 240)?.infos);
+        if let Some(i) = common_prefix_equal(&sr, &fr) {
+            return Err(format!("`{}` + `{}` right after a timed search of the related `{}` that ran to its natural end: improvement #{} is {:?} but a fresh engine reports {:?}", related.1, rgo, related.0, i, sr[i], fr[i]));
+        }
     }
     e.settle(20);
     let again = run_probe(&mut e, &ptext, &p, slice)?;
